@@ -53,10 +53,14 @@ def mutation_src(mu):
     if mu['k'] == 'ren':
         return "RenameModel(%r, %r, db_table=%r)" % (mu['m'], mu['m'] + '2',
                                                      'shop_%s2' % mu['m'].lower())
+    if mu['k'] == 'delapp':
+        return 'DeleteApplication()'
     return 'DeleteModel(%r)' % mu['m']
 
 
 def apply(models, mu):
+    if mu['k'] == 'delapp':
+        return {}
     models = {k: dict(v, fields=set(v['fields'])) for k, v in models.items()}
     if mu['k'] == 'add':
         models[mu['m']]['fields'].add('x')
@@ -108,6 +112,26 @@ def replay(rec, idx=0):
         before = project.run({'action': 'snapshot'})
         prev = {a: observe_db(before['post'], a) for a in ('default', 'other')}
         prev_book = {a: before['post'][a]['book'] for a in ('default', 'other')}
+        if rec.get('oneProc'):
+            # both databases in one process: only the state after both is observable
+            res = project.run({'action': 'evolve_api_seq', 'databases': list(rec['order'])})
+            now = {a: observe_db(res['post'], a) for a in ('default', 'other')}
+            book = {a: res['post'][a]['book'] for a in ('default', 'other')}
+            for entry in res.get('seq') or []:
+                d = entry['db']
+                s_ = ((res.get('signature') or {}).get(d) or {})
+                out['steps'].append({
+                    'db': d, 'driver': 'one-process', 'outcome': entry['outcome'], 'error': entry.get('error'),
+                    'evolved': now[d],
+                    'signature': sorted((((s_.get('apps') or {}).get('shop') or {}).get('models') or {}).keys()),
+                    'recorded': sorted(tuple(e) for e in book[d].get('evolutions', [])
+                                       if e and e[0] == 'shop') if isinstance(book[d], dict) else None,
+                    'other_changed': False, 'other_before': None, 'other_after': None,
+                    'statements': [(e['db'], e['sql'][:90]) for e in res['events'] if e['ev'] == 'stmt'],
+                })
+            if res['outcome'] != 'ok' and not out['steps']:
+                out['errors'].append(('one-process run', (res.get('error') or {}).get('msg')))
+            return out
         for i, d in enumerate(rec['order']):
             driver = 'cmd' if (i + idx) % 2 else 'api'
             if driver == 'cmd':
